@@ -215,6 +215,12 @@ def answer (op : String) (args : List String) : String :=
     match decodeVersion a with
     | some a => s!"{encodeText a.render} pre={b01 a.isPre}"
     | none => "badreq"
+  | "vcmpt", [a, b] =>
+    match decodeText a, decodeText b with
+    | some a, some b => match Version.parse a, Version.parse b with
+      | .ok x, .ok y => s!"{ordStr (cmpVersion x y)} beq={b01 (x.beq y)}"
+      | _, _ => "perr"
+    | _, _ => "badreq"
   | "vsort", vs =>
     match vs.mapM decodeVersion with
     | some vs =>
@@ -372,29 +378,8 @@ violation.
   comparator of the same alternative.
 * K3: `<=M` / `<=M.m` whose bumped component is MAX_SAFE_INTEGER: npm's `<(M+1).0.0-0` is not a
   valid comparator (node-semver throws), the crate reads `<=M.MAX.MAX` and accepts. -/
-namespace Known
-open Semver.Spec Semver.Spec.Npm
-
-def simpleComps (k2 k3 : Bool) (s : Simple) : Option (List Comp) :=
-  match s with
-  | .caret (.maj 0) => if k2 then checked [⟨.lt, pre0 1 0 0⟩] else s.comps.bind id
-  | .prim .lt (.maj M) => if k2 then checked [⟨.lt, rel M 0 0⟩] else s.comps.bind id
-  | .prim .le (.maj M) => if k3 && M == MAX then checked [⟨.le, rel M MAX MAX⟩] else s.comps.bind id
-  | .prim .le (.majMin M m) => if k3 && m == MAX then checked [⟨.le, rel M m MAX⟩] else s.comps.bind id
-  | s => s.comps.bind id
-
-def altComps (k2 k3 : Bool) : Alt → Option (List Comp)
-  | .hyphen lo hi => Npm.hyphen lo hi
-  | .simples l =>
-    let cs := l.filterMap (simpleComps k2 k3)
-    if cs.isEmpty then none else some cs.flatten
-
-def sat (k2 k3 : Bool) (r : Ast) (v : Version) : Bool :=
-  r.any (fun a => match altComps k2 k3 a with
-    | some cs => compsSat cs v
-    | none => false)
-
-end Known
+/-- npm's semantics with the crate's known deviations substituted: `SemverSpec/NpmKnown.lean` -/
+abbrev Known.sat := Semver.Spec.Npm.Known.sat
 
 namespace Oracle
 open Semver.Spec
@@ -483,6 +468,15 @@ def check (op : String) (args : List String) (impl : String) : List (String × S
       let okHash := !eqSpec || parts.getLast? == some "hash=1"
       (if okOrd then [] else [("C04", s!"cmp/eq: crate `{impl}` spec `{want}`")]) ++
       (if okHash then [] else [("C04", "equal versions hash differently")])
+    | _, _ => []
+  | "vcmpt", [a, b] =>
+    -- precedence of the versions the two texts *denote* (split-based reading of the grammar)
+    match decodeText a, decodeText b with
+    | some a, some b => match denotedVersion a, denotedVersion b with
+      | some x, some y =>
+        let want := s!"{ordStr (prec x y)} beq={b01 (prec x y == .eq)}"
+        if impl == want then [] else [("C04", s!"precedence of parsed texts: crate `{impl}` spec `{want}`"), ("C05", s!"fields of a parsed text order differently from the denoted version: crate `{impl}` spec `{want}`")]
+      | _, _ => if impl == "perr" then [] else [("C05", "accepted a text outside the version language")]
     | _, _ => []
   | "vsort", vs =>
     -- the crate's sorted list must ascend by the spec's precedence and be a rearrangement of the input;
